@@ -1,3 +1,76 @@
-(** placeholder *)
-From Xds Require Import Model.SysCheck.
-Theorem C01_placeholder : True. Proof. exact I. Qed.
+(** C01 — Served cache equals the fold of accepted responses (SotW convergence).
+    Statements only; proofs are [exact] of lemmas in Proofs/C01Proofs.v.
+
+    The specification is the per-key fold [kv_step] of Model/SysCheck.v: for a key (type t, name n) it tracks
+    (client open?, name table, name table subscribed?, interest set of t, content of (t, n)).  It is short
+    enough to read (Model/SysCheck.v, [kv_step]) and it is the SAME function that the check evaluates on the
+    traces observed on the implementation ([spec_c01]), so that the theorem below says: the state machine
+    that agrees with the implementation step by step implements this fold on every history. *)
+From Xds Require Import Model.Base Model.Fqdn Model.Proto Model.Decode Model.DecodeCheck Model.Pick Model.Route Model.Mw Model.Sys Model.SysCheck.
+From Xds Require Import Proofs.DecodeProofs Proofs.C01Proofs.
+Open Scope string_scope.
+
+(** Refinement, for every history (of any length) of subscriptions, lookups, bursts of lookups, responses of
+    every type (well-formed or not, solicited or not, in any order), unknown type urls, handler registrations,
+    stream failures, clock ticks: the content served for (t, n), the interest set, the name table and the
+    open/closed status after the history are those of the fold.  ([c01_op] excludes only eviction sweeps - C19 -
+    and the resolver's two-stage lookup - C10.)  Both configurations (name table required or not) are covered
+    by the quantification over [c]. *)
+Theorem C01_refinement : forall c o t n h, t <> TNt -> forallb c01_op h = true ->
+  abs t n (final c o h) = fold_left (kv_step c o t n) h kv_init.
+Proof. exact final_refines. Qed.
+Print Assumptions C01_refinement.
+
+(** A lookup succeeds exactly when the fold contains the name and returns the fold's content. *)
+Theorem C01_lookup_serves_fold : forall c o t n h, t <> TNt -> forallb c01_op h = true ->
+  snd (lookup (final c o h) t n) =
+  match kv_val (fold_left (kv_step c o t n) h kv_init) with Some v => LHit v | None => LMiss end.
+Proof. exact lookup_serves_fold. Qed.
+Print Assumptions C01_lookup_serves_fold.
+
+(** The fold for one accepted response of the key's type: a carried name takes the response's content (the most
+    recent accepted one wins); an omitted name is dropped for listeners and clusters (every accepted response
+    replaces the whole set) and kept for route tables and endpoint sets (merge by name).  With the name table
+    required, a listener is looked up under the name the table binds the requested host to (C14). *)
+Theorem C01_fold_accepted : forall c o t n v ver nonce p res ws,
+  kv_open v = true -> payload_type p = t -> t <> TNt -> decode_payload o p = Some (DMap res) -> kv_interest v = Some ws -> smem n ws = true ->
+  kv_val (kv_step c o t n v (OResp ver nonce p)) =
+    match (if rtype_eqb t TLis && sc_nds_required c && negb (String.eqb n reserved_lds)
+           then match listener_name (sc_f c) (kv_table v) n with Some ln => aget ln res | None => None end
+           else aget n res) with
+    | Some cv => Some cv
+    | None => if full_type t then None else kv_val v
+    end.
+Proof. exact fold_step_accepted. Qed.
+Print Assumptions C01_fold_accepted.
+
+(** A response that does not decode is not part of the fold. *)
+Theorem C01_fold_rejected : forall c o t n v ver nonce p,
+  decode_payload o p = None -> kv_step c o t n v (OResp ver nonce p) = v.
+Proof. exact fold_step_rejected. Qed.
+Print Assumptions C01_fold_rejected.
+
+(** "accepted" = well-formed: a payload decodes exactly when the acceptability predicate of C13 holds. *)
+Theorem C01_accepted_iff_well_formed : forall o p, payload_ok o p = is_some (decode_payload o p).
+Proof. exact payload_ok_decodes. Qed.
+Print Assumptions C01_accepted_iff_well_formed.
+
+(** Names that were never asked for are never stored or served: in EVERY reachable state (sweeps and resolver
+    lookups included) the cache holds only names of the interest set of its type. *)
+Theorem C01_never_asked_never_served : forall c o h t n,
+  smem n (watched_names (final c o h) t) = false -> aget n (tget t (s_cache (final c o h))) = None.
+Proof. exact never_asked_never_served. Qed.
+Print Assumptions C01_never_asked_never_served.
+
+Theorem C01_reachable_invariant : forall c o h, inv (final c o h).
+Proof. exact reachable_inv. Qed.
+Print Assumptions C01_reachable_invariant.
+
+(** non-vacuity: a full-state type drops an omitted name and never stores an unsolicited one *)
+Theorem C01_example :
+  let c := {| sc_nds_required := false; sc_f := {| f_ns := "default"; f_dom := "cluster.local" |} |} in
+  let o := mk_oracle [] [] [] in
+  let cl n := RGood {| cl_name := n; cl_type := Some 3; cl_lb := 0; cl_eds_service := None; cl_outlier := None; cl_load := None |} in
+  let h := [OSubscribe TCl "a"; OSubscribe TCl "b"; OResp "1" "n1" (PCds [cl "a"; cl "b"; cl "zz"]); OResp "2" "n2" (PCds [cl "b"])] in
+  map (fun n => is_some (aget n (tget TCl (s_cache (final c o h))))) ["a"; "b"; "zz"] = [false; true; false].
+Proof. exact C01_example_proof. Qed.
